@@ -215,12 +215,25 @@ def resolution_guards(ctx, col: Collector, rule: str):
                     full = True
             elif isinstance(k, ast.BinOp) and norm(k).replace('"', "'") == f"{schema} + '.' + {name}":
                 full = True
-        col.check(bare, rule, 'locate_table:alias-key', 'the bare name (alias key) is looked up',
-                  'locate_table never looks the bare name up in table_dict: tables cannot be addressed by alias',
-                  node=fi.node, file=fi.file)
-        col.check(full, rule, 'locate_table:full-name-key', 'the key f"{schema}.{name}" is looked up',
-                  'locate_table never looks up "<schema>.<name>": schema-qualified / public addressing is broken',
-                  node=fi.node, file=fi.file)
+        # lookups whose container or key the rule cannot read (an aliased dict, a key computed elsewhere, a helper call): no verdict from absence
+        opaque = [n for n in walk_no_nested(fi.node) if (isinstance(n, ast.Call) and isinstance(n.func, ast.Attribute) and n.func.attr in ('get', '__getitem__')
+                                                         and n not in gets) or (isinstance(n, ast.Subscript) and n not in subs and isinstance(n.ctx, ast.Load))]
+        opaque_keys = [k for k in keys if not isinstance(k, (ast.Name, ast.JoinedStr, ast.BinOp, ast.Constant))]
+        calls_out = [n for n in walk_no_nested(fi.node) if isinstance(n, ast.Call) and not (isinstance(n.func, ast.Attribute) and n.func.attr in ('get', '__getitem__'))
+                     and not (isinstance(n.func, ast.Name) and n.func.id in ('TableNotFoundError', 'RuntimeError', 'isinstance', 'str'))]
+        readable = not opaque and not opaque_keys and not calls_out and bool(keys)
+        for found_, cons_, okmsg, badmsg in (
+                (bare, 'locate_table:alias-key', 'the bare name (alias key) is looked up',
+                 'locate_table never looks the bare name up in table_dict: tables cannot be addressed by alias'),
+                (full, 'locate_table:full-name-key', 'the key f"{schema}.{name}" is looked up',
+                 'locate_table never looks up "<schema>.<name>": schema-qualified / public addressing is broken')):
+            if found_:
+                col.ok(rule, cons_, okmsg, node=fi.node, file=fi.file)
+            elif readable:
+                col.bad(rule, cons_, badmsg + f' (keys looked up: {[norm(k) for k in keys]})', node=fi.node, file=fi.file)
+            else:
+                col.unk(rule, cons_, 'locate_table performs lookups this rule cannot read (aliased container, computed key or helper call); the key is not established',
+                        node=fi.node, file=fi.file)
     guarded(col, rule, 'locate_table', locate)
 
     def getitem():
@@ -253,7 +266,8 @@ def resolution_guards(ctx, col: Collector, rule: str):
     guarded(col, rule, 'Table.__getitem__', getitem)
 
     def index_subject():
-        fi = idx.func('pydbml.parser.blueprints', 'TableBlueprint.build')
+        from ..inline import inlined_info
+        fi = inlined_info(idx, idx.func('pydbml.parser.blueprints', 'TableBlueprint.build'), depth=2)
         # the inner search loop over result.columns
         loops = [n for n in walk_no_nested(fi.node) if isinstance(n, ast.For) and access_path(n.iter) and access_path(n.iter).endswith('.columns')
                  and any(isinstance(m, ast.Compare) for m in ast.walk(n))]
